@@ -39,6 +39,10 @@ package dns
 //@ func (*APLPrefix).equals [C20]
 //@   requires a != nil && b != nil
 //@   exit neg: ret0 ==> a.Negation == b.Negation
+// ... and the masks are the same octets: the mask's length is what tells address family 1 from family 2 (IP.Equal
+// holds between an IPv4 address and its IPv4-mapped IPv6 form), its content is the prefix length
+//@   exit mask: ret0 ==> len(a.Network.Mask) == len(b.Network.Mask) && (forall k in 0..len(a.Network.Mask) :: a.Network.Mask[k] == b.Network.Mask[k])
+//@   exit ip: ret0 ==> called("(net.IP).Equal") && callres("(net.IP).Equal")
 //@   pure
 
 // ---- Dedup's grouping key ---------------------------------------------------------------------------------------
